@@ -952,18 +952,6 @@ INGEST_TABLE: dict[str, list[tuple]] = {
         ("and becomes an event of the job", "call", "add_event",
          "P:graph_solution", (_DS,), [], [], ""),
     ],
-    "get_event_set_counts": [
-        ("the first count seen for an event type opens its set", "store", "",
-         "{}[each(each(P:event_sets).items())[0]]",
-         ("{each(each(P:event_sets).items())[1]}",),
-         [("cmp", "each(each(P:event_sets).items())[0]", "In", "{}", "0")],
-         [], ""),
-        ("every further count is added to it", "call", "add",
-         "{}[each(each(P:event_sets).items())[0]]",
-         ("each(each(P:event_sets).items())[1]",),
-         [("cmp", "each(each(P:event_sets).items())[0]", "In", "{}", "1")],
-         [], ""),
-    ],
     "create_graph_from_events": [
         ("an edge from every event to every event type that occurs in one "
          "of its SUCCESSOR sets (tail = the event, head = the successor)",
